@@ -77,7 +77,8 @@ def gen(rng, prop, job):
     if job.get("debug"):
         # Lock(debug=True): the same programs with the debug prints on (they read Lock.waiting once more and, without a till,
         # raise inside wait()'s try block): monitors only
-        sc = m3_lock.gen_scenario(rng, "terminating" if rng.random() < 0.5 else "mixed")
+        sc = m3_lock.gen_scenario(rng, ("idle" if rng.random() < 0.6 else "mixed") if prop == "C20" else
+                                  ("terminating" if rng.random() < 0.5 else "mixed"))
         sc["debug"] = True
         return sc
     if job.get("stress"):
@@ -111,7 +112,9 @@ def make_jobs(prop, tier, seed):
             jobs.append({"kind": "pbound", "prop": prop, "seed": seed * 104729 + j, "k": 2, "budget": 2000})
     else:
         jobs.append({"kind": "pbound", "prop": prop, "seed": seed * 104729, "k": 1, "budget": 200})
-    if prop in ("C05", "C06"):
+    # Lock.wait() parks on `waiter | till` and is woken by waiter.go(): the Signal layer (M1) is part of every Lock property
+    jobs.extend(plug.m1_layer_jobs(prop, tier, seed))
+    if prop in ("C05", "C06", "C20"):
         for j in range(2 if tier == "quick" else 12):
             jobs.append({"kind": "explore", "debug": True, "prop": prop, "seed": seed * 67867967 + j, "scenarios": 8, "schedules": 6, "no_driver": True})
     if prop == "C20":
@@ -144,6 +147,11 @@ def _is_signal(job):
 
 
 def run_job(job):
+    if job["kind"] == "layer":
+        return plug.run_m1_layer(job, "the model of Lock (waiter.go() / both.wait() are single steps there)")
+    r = plug.m1_layer_replay(job)
+    if r is not None:
+        return r
     if _is_signal(job):
         from . import p_m1
         res = p_m1.run_job(dict(job, prop="C20"))
@@ -158,7 +166,7 @@ def run_job(job):
 
 
 def shrink(prop, failure):
-    if (failure.get("replay") or {}).get("model") == "m1":
+    if (failure.get("replay") or {}).get("model") in ("m1", "m1-layer"):
         return failure
     if (failure.get("replay") or {}).get("model") == "m4":
         return plug.std_shrink(MODELQ, prop, failure)
